@@ -837,6 +837,11 @@ def rg2(m, run, methods):
                        'or silently dropped' % called[0].lineno, 'geomdl/%s.py:%d in %s' % (fi.mod, called[0].lineno, fi.key))
             elif note is not None and not record:
                 run.note('RG2.no-unit-range-test-for-un-normalised-shapes', key, 'not decided by interpretation (%s)' % note)
+            elif not record or (meth == 'evaluate_list' and sum(1 for r_ in record if r_[0].startswith('evaluator.')) != 2):
+                n += 1
+                run.ob('RG2.no-unit-range-test-for-un-normalised-shapes', key, False,
+                       'on an object created with normalize_kv=False the request never reaches the evaluator / operation slot (%d of the expected calls recorded): '
+                       'the parameters are silently dropped' % len(record), 'geomdl/%s.py:%d in %s' % (fi.mod, fi.node.lineno, fi.key))
             else:
                 n += 1
                 run.ob('RG2.no-unit-range-test-for-un-normalised-shapes', key, True, 'check_params is not reached; the request reaches %s' % (record[0][0] if record else 'the end of the method'),
